@@ -98,6 +98,20 @@ func VerifC13Snapshot() {
 	if r == nil {
 		return
 	}
+	// the loading instance may already hold PART of the saved log: the complete
+	// branch under one of the saved heads (received from a peer before the snapshot
+	// is loaded); the snapshot must still bring everything else
+	if sizes == 0 && len(wantHeads) > 0 {
+		if pre := vstub.NdChoice("already-holds-head", len(wantHeads)+1); pre > 0 {
+			h := a.OpLog().Heads().Slice()[pre-1]
+			if err := r.Sync(ctx, []ipfslog.Entry{h.Copy()}); err != nil {
+				vstub.Fail("C13 Sync on the loading instance failed")
+				return
+			}
+			vstub.WaitIdle()
+			vstub.Cover("partly-held")
+		}
+	}
 	lerr := r.LoadFromSnapshot(ctx)
 	vstub.WaitIdle()
 	if lerr != nil {
